@@ -480,6 +480,31 @@ def gen_transitions(cfg_name, overrides=None, timeout=900, heap="4g", module="Ds
     return path, {"states": st, "wall_s": round(time.time() - t, 2), "violated": None, "ok": True, "out": ""}, n
 
 
+def distinct_events(results, ops=None):
+    """Number of distinct recorded events (operation, arguments, results; clock readings and ids removed) over the
+    traces of `results`, restricted to the operations in `ops` when given."""
+    import hashlib
+    seen = set()
+    for r in results:
+        try:
+            f = open(r["trace"])
+        except OSError:
+            continue
+        with f:
+            for line in f:
+                try:
+                    e = json.loads(line)
+                except ValueError:
+                    continue
+                op = e.get("op") or e.get("ev") or e.get("m") or e.get("kind")
+                if ops is not None and op not in ops:
+                    continue
+                for k in ("t0", "t1", "tsLo", "tsHi", "id", "msg", "tick", "etick", "alt"):
+                    e.pop(k, None)
+                seen.add(hashlib.sha1(json.dumps(e, sort_keys=True).encode()).digest()[:10])
+    return len(seen)
+
+
 def sample_events(trace, n=6, ops=None):
     out = []
     with open(trace) as f:
